@@ -155,6 +155,11 @@ fn main() {
          character-strings, directives without argument, empty labels, lone CR, control characters, an error after valid records): \
          Err required; only counted (still one unambiguous record, accepted by common servers, or an explicit loud refusal): repeated \
          TTL/class fields, '+' signs, owner without type, lower-case $origin/$ttl, RFC 3597 generic forms, lower-case CSYNC type list. \
+         text-limits = content unit {1-, 2-, 3-, 4-octet characters, \\DDD of an octet >= 0x80 (4 characters = 1 octet), \\\" and \\\\ \
+         (2 characters = 1 octet)} x OCTET length {254, 255, 256, 257} x quoted/unquoted for every length-limited text field (TXT single / \
+         among short strings, HINFO cpu/os, NAPTR flags/services/regexp, CAA tag; CAA value has no limit) and labels of 62..65 / names \
+         of 254..257 octets with escaped dots as owner, RDATA name and $ORIGIN argument: within the limit in OCTETS the field loads to \
+         exactly those octets, beyond it Err. \
          LOADER knobs: zone files x store {file, sqlite with a fresh journal} x zone type {Primary, Secondary, External} x AXFR policy \
          {Deny, AllowAll, AllowSigned} x {root_dir + relative path, absolute path} x nx-proof {none, NSEC, NSEC3}: valid files load \
          exactly whatever the knobs, files with an error after valid records load NOTHING. LOADER differential: SOA+NS+records written to a scratch root and loaded \
